@@ -2,6 +2,7 @@ package interp
 
 import (
 	"fmt"
+	"go/ast"
 	"go/types"
 	"strings"
 
@@ -23,6 +24,20 @@ func (it *Interp) intrinsicFor(fn *ssa.Function) Intrinsic {
 	} else if o := fn.Origin(); o != nil {
 		if f, ok := intrinsics[o.String()]; ok {
 			in = f
+		}
+	}
+	if in == nil && it.stubs != nil {
+		// harness-level stubs: a harness function annotated "//verif:stub <name>"
+		// replaces the named function under the engine (natively the real one runs)
+		key := name
+		if o := fn.Origin(); o != nil {
+			key = o.String()
+		}
+		if st := it.stubs[key]; st != nil && st != fn {
+			sf := st
+			in = func(it *Interp, args []Value) Value {
+				return tailCall{fn: it.funcValue(sf), args: args}
+			}
 		}
 	}
 	if in == nil && fn.Pkg != nil && fn.Signature.Recv() == nil {
@@ -47,6 +62,36 @@ func (it *Interp) intrinsicFor(fn *ssa.Function) Intrinsic {
 }
 
 func (it *Interp) registerNatives() {}
+
+// RegisterStubs scans a harness package for functions whose doc comment has a
+// line "//verif:stub <fully qualified function name>" (e.g.
+// "(*net.Dialer).DialContext", "os.Remove") and makes the engine call them in
+// place of the named function. A method's stub takes the receiver as its
+// first parameter.
+func (it *Interp) RegisterStubs(pkg *ssa.Package) {
+	if pkg == nil {
+		return
+	}
+	if it.stubs == nil {
+		it.stubs = map[string]*ssa.Function{}
+	}
+	for _, m := range pkg.Members {
+		f, ok := m.(*ssa.Function)
+		if !ok {
+			continue
+		}
+		fd, ok := f.Syntax().(*ast.FuncDecl)
+		if !ok || fd.Doc == nil {
+			continue
+		}
+		for _, c := range fd.Doc.List {
+			const pfx = "//verif:stub "
+			if strings.HasPrefix(c.Text, pfx) {
+				it.stubs[strings.TrimSpace(c.Text[len(pfx):])] = f
+			}
+		}
+	}
+}
 
 // callSync runs an interpreted function to completion from native code.
 func (it *Interp) callSync(fv *FuncV, args []Value) Value {
